@@ -27,7 +27,9 @@ BOUNDS = {'quick': '1-4 utterances, 0-1 pre-processor (dither-like: consumes the
 OUTSIDE = ['real process kills and real multi-process DataLoader workers: order preservation is the DataLoader stub\'s contract, so independence of --num-workers is assumed, not shown',
            'file-system atomicity beyond the three-step write model', 'runs without --seed (a fresh random seed is drawn per run by design)']
 ASSUMPTIONS = ['io.TextIOWrapper: lines printed are durable only after flush()/close(); a soft interrupt unwinds normally and the interpreter flushes at exit',
-               'torch.save is not atomic: absent -> partial -> complete; a failing write leaves the partial file and raises OSError', 'DataLoader yields items in index order, one __getitem__ per index']
+               'torch.save is not atomic: absent -> partial -> complete; a failing write leaves the partial file and raises OSError', 'DataLoader yields items in index order, one __getitem__ per index',
+               'builtins.hash of anything containing a str / bytes is salted per interpreter process: the uninterrupted run, the killed run and its resume are three processes (replayed in separate interpreters)',
+               'tempfile.mkstemp returns a fresh name on every call; os.replace is atomic']
 CONFIG_TIME_LIMIT = {'quick': 600, 'thorough': 1800}
 
 
@@ -58,6 +60,7 @@ def run_config(cfg):
 
     def fresh_run(manifest, files, seed, crash_at=None, fault=None):
         env.saved, env.printed, env.seeds, env.reads = [], [], [], []
+        env.process = getattr(env, 'process', 0) + 1        # every invocation of the tool is another interpreter process
         env.files = dict(files)
         env.rng.state = z3.Const('unseeded', cl.RNGS)
         counter = [0]
@@ -333,6 +336,28 @@ def replay(w):
         again = [u for u in listed_ref if u in saved3 or sig_of.get(u) in read3]
         if again:
             return {'reproduced': True, 'detail': 'after a complete run the manifest lists %s, yet running the same command again read / rewrote %s' % (listed_ref, again)}
-        return {'reproduced': False, 'detail': 'kill/resume reproduces the uninterrupted directory; listed utterances are neither read nor rewritten'}
+        # the uninterrupted run, the killed run and its resume are different interpreter processes in reality: the same
+        # command in two fresh interpreters (default hash randomisation) must leave identical files
+        if w['npre']:
+            import subprocess
+            import sys
+            src = os.path.dirname(os.path.dirname(os.path.dirname(os.path.abspath(command_line.__file__))))
+            outs = []
+            for tag in ('p1', 'p2'):
+                o_ = os.path.join(work, tag)
+                code = 'import sys, json; from pydrobert.speech import command_line as c; sys.exit(c.signals_to_torch_feat_dir(json.loads(sys.argv[1])) or 0)'
+                env_ = dict(os.environ, PYTHONPATH=src)
+                env_.pop('PYTHONHASHSEED', None)
+                r_ = subprocess.run([sys.executable, '-c', code, json.dumps(args(o_, os.path.join(work, tag + '.manifest')))], env=env_, capture_output=True, text=True, timeout=600)
+                if r_.returncode != 0:
+                    return {'reproduced': True, 'detail': 'the tool failed in a fresh interpreter process: %s' % r_.stderr[-300:]}
+                outs.append(o_)
+            for u in range(nutt):
+                a = torch.load(os.path.join(outs[0], uid(u, nutt) + '.pt'))
+                b = torch.load(os.path.join(outs[1], uid(u, nutt) + '.pt'))
+                if a.shape != b.shape or not torch.equal(a, b):
+                    return {'reproduced': True, 'detail': 'the same command (--seed %s, dither) run in two separate interpreter processes stores different features for %s (max diff %.3g): an interrupted run resumed from the shell cannot reproduce the uninterrupted one'
+                            % (w.get('seed', 7), uid(u, nutt), float((a - b).abs().max()) if a.shape == b.shape else float('nan'))}
+        return {'reproduced': False, 'detail': 'kill/resume reproduces the uninterrupted directory (also across interpreter processes); listed utterances are neither read nor rewritten'}
     finally:
         shutil.rmtree(work, ignore_errors=True)
